@@ -380,6 +380,7 @@ func runC18(c *report.Ctx) {
 	}
 
 	ruleLedgerPathErrorsPropagate(c)
+	ruleRemovalStepIdempotent(c) // the worker's retry of a failed removal starts again at step 1: every deletion of that step must be repeatable
 
 	// ---- (3) cache repair ----------------------------------------------------------------------------------
 	c.Rule("cache-repair", "a transaction that fills the in-memory keystore cache repairs it on its error edge, with the id the failed transaction produced", 4)
